@@ -414,6 +414,13 @@ pub(crate) async fn exec_model_trace_world(t: Trace, prop: &'static str, w: Worl
     // seeded order, so lines are compared once, as multisets over the whole episode
     let mut deferring = false;
     let mut deferred_obs: Vec<Vec<String>> = vec![];
+    // slow-peer episodes ("slow:on:<c>" .. "slow:off"): only connection c reads through a bounded window; its lines and
+    // the expectations addressed to it are held back and compared once, when it has drained; everybody else is
+    // judged step by step as usual
+    let mut slow_conn: Option<usize> = None;
+    let mut slow_release = false;
+    let mut slow_obs: Vec<String> = vec![];
+    let mut slow_exps: Vec<TExp> = vec![];
     // name (channel or nick) -> (properties of recent operations on it, step of the last one)
     let mut dirty: std::collections::HashMap<String, (u32, usize)> = std::collections::HashMap::new();
     let mut viol: Option<Violation> = None;
@@ -462,7 +469,7 @@ pub(crate) async fn exec_model_trace_world(t: Trace, prop: &'static str, w: Worl
             }
             Action::Window { c, .. } => {
                 // a reader with a bounded window is not judged line by line (outside an episode: not at all)
-                if !deferring {
+                if !deferring && slow_conn != Some(*c) {
                     if let Some(cn) = m.conns.get_mut(*c) {
                         cn.deaf = true;
                     }
@@ -475,6 +482,11 @@ pub(crate) async fn exec_model_trace_world(t: Trace, prop: &'static str, w: Worl
                     deferred_obs = vec![];
                 } else if mk == "defer:off" {
                     deferring = false;
+                } else if let Some(rest) = mk.strip_prefix("slow:on:") {
+                    slow_conn = rest.parse().ok();
+                    slow_release = false;
+                } else if mk == "slow:off" {
+                    slow_release = true;
                 }
                 if let Some(rest) = mk.strip_prefix("ctx:") {
                     ctx = rest.split(',').map(|p| prop_bit(p.trim())).fold(0, |a, b| a | b);
@@ -508,6 +520,25 @@ pub(crate) async fn exec_model_trace_world(t: Trace, prop: &'static str, w: Worl
                     }
                     obs_canon = std::mem::take(&mut deferred_obs);
                     out.count("fault.backpressure_episode", 1);
+                }
+                if let Some(sc) = slow_conn {
+                    // hold back what concerns the slow peer
+                    if let Some(v) = obs_canon.get_mut(sc) {
+                        slow_obs.append(v);
+                    }
+                    let (mine, rest): (Vec<TExp>, Vec<TExp>) = std::mem::take(&mut exps).into_iter().partition(|e| e.e.conn() == sc);
+                    slow_exps.extend(mine);
+                    exps = rest;
+                    if slow_release {
+                        // the episode is over: judge the slow peer's whole backlog now
+                        if let Some(v) = obs_canon.get_mut(sc) {
+                            *v = std::mem::take(&mut slow_obs);
+                        }
+                        exps.extend(std::mem::take(&mut slow_exps));
+                        slow_conn = None;
+                        slow_release = false;
+                        out.count("fault.slow_peer_episode", 1);
+                    }
                 }
                 // deaf / dead connections: nothing is judged on them
                 let mut discs = match_step(&exps, &mut obs_canon);
